@@ -92,6 +92,16 @@ def delay_plans(case, dry, mod, tier, rng):
         if tier == "quick" and len(iplans) > getattr(mod, "INSTR_SAMPLE", 60):
             iplans = rng.sample(iplans, getattr(mod, "INSTR_SAMPLE", 60))
         plans.extend(iplans)
+        # functions of the pool classes that are not in the hand-written hot list (helpers a refactoring may have
+        # introduced): the ones executed repeatedly during a call come first, the run-once ones are sampled
+        asites = [(role, qn, rel, n) for role, qn, rel, n in (dry.get("occ") or [])
+                  if isinstance(rel, str) and rel.startswith("i") and qn not in ihot and not role.startswith("worker")]
+        rep = [[[role, qn, rel, o, "sleep", t]] for role, qn, rel, n in sorted(asites) if n > 1 for o in sorted({1, n})]
+        once = [[[role, qn, rel, 1, "sleep", t]] for role, qn, rel, n in sorted(asites) if n == 1]
+        if tier == "quick":
+            rep = rng.sample(rep, min(len(rep), 24))
+            once = rng.sample(once, min(len(once), 6))
+        plans.extend(rep + once)
     # source-free failpoints: an OSError (EMFILE) raised at each statement of the listed functions, first occurrence,
     # in the forked children (C18: a failing reopen must not leave the child on the inherited descriptor)
     for role, qn, rel in pe.worker_sites(tuple(getattr(mod, "FAULT_QUALNAMES", ()))):
@@ -124,7 +134,7 @@ def run_shard(mod, spec):
         elif tier == "thorough" and bi % 12 == 11:
             case["start"] = "forkserver"
     if getattr(mod, "INSTR_HOT", None):
-        case["instr_hooks"] = list(mod.INSTR_HOT)
+        case["instr_hooks"] = list(mod.INSTR_HOT) + list(getattr(mod, "INSTR_AUTO", ()))
     scratch = common.scratch_dir("vf-pool-")
     fc_site = _flow_control_site()
     t_end = time.time() + getattr(mod, "SHARD_BUDGET_S", {"quick": 100, "thorough": 1500})[tier]
